@@ -309,6 +309,7 @@ class ShortTimeFourierTransformFrameComputer(LinearFilterBankFrameComputer):
         self._started = False
         self._first_frame = True
         self._buf_len = 0
+        self._hist_len = 0
         self._chunk_dtype = np.float64
         self._kaldi_shift = kaldi_shift
         if frame_style is None:
@@ -514,27 +515,20 @@ class ShortTimeFourierTransformFrameComputer(LinearFilterBankFrameComputer):
                 frame = self._buf
                 total_len = chunk_len + frame_length
                 buf_len = frame_length
+                self._hist_len = frame_length
                 noncausal_first = False
             self._compute_frame(frame, coeffs[frame_idx])
             self._first_frame = False
         rem_len = total_len - num_frames * frame_shift
         assert rem_len < frame_length
-        if rem_len > 0:
-            throw_away = total_len - rem_len
-            if throw_away < buf_len:
-                rem_ring_len = buf_len - throw_away
-                assert rem_ring_len < rem_len or (
-                    rem_ring_len <= rem_len and not len(chunk)
-                )
-                self._buf[
-                    self._frame_length
-                    - rem_len : self._frame_length
-                    - rem_len
-                    + rem_ring_len
-                ] = self._buf[self._frame_length - rem_ring_len :]
-                self._buf[self._frame_length - (rem_len - rem_ring_len) :] = chunk
-            else:
-                self._buf[-rem_len:] = chunk[-rem_len:]
+        # keep the last frame_length samples seen, not only the remainder: finalize
+        # may have to reflect more than rem_len samples past the end of the signal
+        if chunk_len >= self._frame_length:
+            self._buf[:] = chunk[chunk_len - self._frame_length :]
+        elif chunk_len > 0:
+            self._buf[: self._frame_length - chunk_len] = self._buf[chunk_len:]
+            self._buf[self._frame_length - chunk_len :] = chunk
+        self._hist_len = min(self._frame_length, self._hist_len + chunk_len)
         self._buf_len = rem_len
         self._started = True
         return coeffs
@@ -558,7 +552,12 @@ class ShortTimeFourierTransformFrameComputer(LinearFilterBankFrameComputer):
             pad_right = (num_frames - 1) * frame_shift + frame_length - buf_len
             pad_right -= pad_left
             coeffs = np.empty((num_frames, self.num_coeffs), dtype=self._chunk_dtype)
-            frames = np.pad(self._buf[-buf_len:], (pad_left, pad_right), "symmetric",)
+            # reflect about the end of the signal, of which the last hist_len samples
+            # (at least buf_len of them) are still in the buffer
+            hist_len = self._hist_len
+            frames = np.pad(
+                self._buf[frame_length - hist_len :], (pad_left, pad_right), "symmetric"
+            )[hist_len - buf_len :]
             for frame_idx in range(num_frames):
                 frame = frames[
                     frame_idx * frame_shift : frame_idx * frame_shift + frame_length
@@ -567,6 +566,7 @@ class ShortTimeFourierTransformFrameComputer(LinearFilterBankFrameComputer):
         else:
             coeffs = np.empty((0, self.num_coeffs), dtype=self._chunk_dtype)
         self._buf_len = 0
+        self._hist_len = 0
         self._started = False
         self._first_frame = True
         return coeffs
